@@ -23,6 +23,7 @@ type ReplayFile struct {
 	Msg      string            `json:"msg"`
 	Vars     map[string]uint64 `json:"vars"`
 	Params   map[string]int    `json:"params"`
+	Lists    map[string][]string `json:"lists,omitempty"`
 	Packages []string          `json:"packages"`
 	Stack    []string          `json:"stack,omitempty"`
 	Native   string            `json:"native_outcome"`
@@ -39,6 +40,9 @@ type vioGroup struct {
 func report(id, tier string, seed int, sc *Sidecar, ld *Loaded, sums []*harnessSummary, known *KnownFile, noReplay, verbose bool, t0 time.Time, loadTime time.Duration) int {
 	exit := 0
 	engineProblems := []string{}
+	for _, u := range ld.unavailable {
+		engineProblems = append(engineProblems, "harness "+u+" does not compile against the current source and was not run")
+	}
 	specOf := map[string]*HarnessSpec{}
 	for i := range sc.Harnesses {
 		specOf[sc.Harnesses[i].Fn] = &sc.Harnesses[i]
@@ -112,7 +116,7 @@ func report(id, tier string, seed int, sc *Sidecar, ld *Loaded, sums []*harnessS
 				w := ws[i]
 				nid++
 				refs[nid] = ref{kind: "witness", res: w}
-				byPkg[pkg] = append(byPkg[pkg], ReplayModel{ID: nid, Harness: shortName(s.Fn), Vars: w.Witness, Params: hs.Params[tier]})
+				byPkg[pkg] = append(byPkg[pkg], ReplayModel{ID: nid, Harness: shortName(s.Fn), Vars: w.Witness, Params: hs.Params[tier], Lists: hs.Lists})
 			}
 		}
 		for _, k := range order {
@@ -122,7 +126,7 @@ func report(id, tier string, seed int, sc *Sidecar, ld *Loaded, sums []*harnessS
 			}
 			nid++
 			refs[nid] = ref{kind: "violation", key: k}
-			byPkg[pkgOfHarness(g.first.Harness)] = append(byPkg[pkgOfHarness(g.first.Harness)], ReplayModel{ID: nid, Harness: shortName(g.first.Harness), Vars: g.first.Inputs, Params: g.hs.Params[tier]})
+			byPkg[pkgOfHarness(g.first.Harness)] = append(byPkg[pkgOfHarness(g.first.Harness)], ReplayModel{ID: nid, Harness: shortName(g.first.Harness), Vars: g.first.Inputs, Params: g.hs.Params[tier], Lists: g.hs.Lists})
 		}
 		for _, pkg := range sortedKeys(byPkg) {
 			res, err := rp.run(pkg, byPkg[pkg])
@@ -192,7 +196,7 @@ func report(id, tier string, seed int, sc *Sidecar, ld *Loaded, sums []*harnessS
 				reproduced = rr.Outcome == "timeout"
 				for try := 0; try < 4 && !reproduced; try++ {
 					// the blocking interleaving is timing-dependent natively: try again
-					res, err := rp.run(pkgOfHarness(v.Harness), []ReplayModel{{ID: 1, Harness: shortName(v.Harness), Vars: v.Inputs, Params: g.hs.Params[tier], Timeout: 4000}})
+					res, err := rp.run(pkgOfHarness(v.Harness), []ReplayModel{{ID: 1, Harness: shortName(v.Harness), Vars: v.Inputs, Params: g.hs.Params[tier], Lists: g.hs.Lists, Timeout: 4000}})
 					if err == nil {
 						rr = res[1]
 						reproduced = rr.Outcome == "timeout"
@@ -205,7 +209,7 @@ func report(id, tier string, seed int, sc *Sidecar, ld *Loaded, sums []*harnessS
 				if !reproduced {
 					// a race needs the detector to see both accesses in one run: try again a few times
 					for try := 0; try < 8 && !reproduced; try++ {
-						res, err := rp.run(pkgOfHarness(v.Harness), []ReplayModel{{ID: 1, Harness: shortName(v.Harness), Vars: v.Inputs, Params: g.hs.Params[tier]}})
+						res, err := rp.run(pkgOfHarness(v.Harness), []ReplayModel{{ID: 1, Harness: shortName(v.Harness), Vars: v.Inputs, Params: g.hs.Params[tier], Lists: g.hs.Lists}})
 						if err == nil {
 							rr = res[1]
 							reproduced = rr.Outcome == "crash" && strings.Contains(rr.Msg, "DATA RACE")
@@ -237,7 +241,7 @@ func report(id, tier string, seed int, sc *Sidecar, ld *Loaded, sums []*harnessS
 		nViol++
 		h := sha256.Sum256([]byte(k))
 		path := filepath.Join(verifDir, "replays", id, fmt.Sprintf("%x.json", h[:6]))
-		rf := ReplayFile{Property: id, Harness: v.Harness, Kind: v.Kind, Label: v.Label, Site: v.Site, Msg: v.Msg, Vars: v.Inputs, Params: g.hs.Params[tier], Packages: sc.Packages, Stack: v.Stack, Native: rr.Outcome + " " + rr.Label + " " + firstLine(rr.Msg),
+		rf := ReplayFile{Property: id, Harness: v.Harness, Kind: v.Kind, Label: v.Label, Site: v.Site, Msg: v.Msg, Vars: v.Inputs, Params: g.hs.Params[tier], Lists: g.hs.Lists, Packages: sc.Packages, Stack: v.Stack, Native: rr.Outcome + " " + rr.Label + " " + firstLine(rr.Msg),
 			How: "cd /verif && ./check --replay " + path}
 		b, _ := json.MarshalIndent(rf, "", " ")
 		os.WriteFile(path, b, 0o644)
@@ -261,6 +265,9 @@ func report(id, tier string, seed int, sc *Sidecar, ld *Loaded, sums []*harnessS
 		ph := map[string]any{"harness": s.Fn, "paths": s.Paths, "decisions": s.Decisions, "assert_queries": s.AssertQ, "unsat": s.AssertUnsat, "ssa_steps": s.Steps, "wall_s": round1(s.Elapsed.Seconds()), "max_decision_depth": s.MaxTrail, "goroutines_max": s.Threads}
 		if hs := specOf[s.Fn]; hs != nil {
 			ph["params"] = hs.Params[tier]
+			if hs.Lists != nil {
+				ph["discovered_from_source"] = hs.Lists
+			}
 			if hs.Note != "" {
 				ph["note"] = hs.Note
 			}
@@ -370,6 +377,8 @@ func report(id, tier string, seed int, sc *Sidecar, ld *Loaded, sums []*harnessS
 			"unknown": solver.UnknownN, "errors": solver.Errors, "time_s": round1(solver.Time.Seconds())},
 		"known_findings_matched": nKnown,
 		"engine_problems":        engineProblems,
+		"harness_files_left_out": ld.dropped,
+		"optional_harnesses_skipped": ld.skipped,
 		"load_and_ssa_build_s":   round1(loadTime.Seconds()),
 		"encoding_regenerated_from": "/repo working tree via go/packages + go/ssa (x/tools v0.29.0) on this run",
 		"explanation": "bounded symbolic execution of the real SSA; every assertion is decided by an SMT query over all inputs of the path; witnesses and counterexamples are replayed against the natively compiled code",
@@ -464,7 +473,7 @@ func runReplayFile(path string) int {
 			rp.race = true
 		}
 	}
-	res, err := rp.run(pkgOfHarness(rf.Harness), []ReplayModel{{ID: 1, Harness: shortName(rf.Harness), Vars: rf.Vars, Params: rf.Params}})
+	res, err := rp.run(pkgOfHarness(rf.Harness), []ReplayModel{{ID: 1, Harness: shortName(rf.Harness), Vars: rf.Vars, Params: rf.Params, Lists: rf.Lists}})
 	if err != nil {
 		die(2, "%v", err)
 	}
